@@ -652,7 +652,8 @@ class TrapGen:
                 nxt.tctx = l.tctx
                 self.emit_inline_def(c, nxt, indent)
             pre_real, E = call("a", "b")
-            have_decoy = not c.lit and nxt.shape != "closure0"  # a closure that captured a and b has no other operands
+            # a closure that captured the failing a (and b) cannot be called with the safe pair
+            have_decoy = not c.lit and nxt.shape not in ("closure0", "closure1")
             decoy = lambda: call(safe_x, safe_y)
         terms = []
         if l.decoy_before and have_decoy:
@@ -816,3 +817,8 @@ def generate(rng, ncases, plans_fn=None, **kw):
     for c in p.cases:
         g.finish_case(c)
     return p
+
+
+def json_dumps(obj):
+    import json
+    return json.dumps(obj, indent=1, default=str)
